@@ -147,6 +147,9 @@ pub fn scope(name: &str) -> Option<Scope> {
         "S2d2" => Scope { name: "S2d2", n: 2, r: 1, k: 1, weak: false, upgrade_ops: false, copyroot: false, wrap: false, sets: 2, handles: 2, ..BASE },
         "S1d2" => Scope { name: "S1d2", n: 1, r: 1, k: 1, weak: false, upgrade_ops: false, copyroot: false, wrap: false, sets: 2, handles: 2, ..BASE },
         "S2dw" => Scope { name: "S2dw", n: 2, r: 1, k: 1, weak: true, upgrade_ops: true, copyroot: false, wrap: false, sets: 1, handles: 2, ..BASE },
+        // stashing objects of a type that needs no tracing
+        "S2dl" => Scope { name: "S2dl", n: 2, r: 1, k: 1, weak: false, upgrade_ops: false, copyroot: false, wrap: false, leaf: true, sets: 1, handles: 0, ..BASE },
+        "S3dl" => Scope { name: "S3dl", n: 3, r: 1, k: 1, weak: false, upgrade_ops: false, copyroot: false, wrap: false, leaf: true, sets: 1, handles: 1, ..BASE },
         "S2fd" => Scope { name: "S2fd", n: 2, r: 1, k: 1, weak: true, upgrade_ops: true, copyroot: false, wrap: false, fin: true, sets: 1, handles: 1, ..BASE },
         "S3d" => Scope { name: "S3d", n: 3, r: 1, k: 1, weak: false, upgrade_ops: false, sets: 1, handles: 3, ..BASE },
         // metrics
@@ -154,6 +157,8 @@ pub fn scope(name: &str) -> Option<Scope> {
         "S3m" => Scope { name: "S3m", n: 3, r: 1, k: 1, weak: false, upgrade_ops: false, leaf: true, metrics_canon: true, ..BASE },
         "S2fl" => Scope { name: "S2fl", n: 2, r: 1, k: 1, weak: false, upgrade_ops: false, copyroot: false, wrap: false, leaf: true, weakleaf: true, fin: true, ..BASE },
         "S3fl" => Scope { name: "S3fl", n: 3, r: 1, k: 1, weak: false, upgrade_ops: false, copyroot: false, wrap: false, leaf: true, weakleaf: true, fin: true, ..BASE },
+        // non-tracing objects as the CHILD of raw barriers (shared between two nodes, then dropped by one)
+        "S3lb" => Scope { name: "S3lb", n: 3, r: 1, k: 1, weak: false, upgrade_ops: false, copyroot: false, wrap: false, leaf: true, barrier: true, ..BASE },
         "S2mb" => Scope { name: "S2mb", n: 2, r: 1, k: 1, leaf: true, barrier: true, metrics_canon: true, ..BASE },
         "S3mb" => Scope { name: "S3mb", n: 3, r: 1, k: 1, weak: false, upgrade_ops: false, copyroot: false, wrap: false, leaf: true, barrier: true, metrics_canon: true, ..BASE },
         "S2n" => Scope { name: "S2n", n: 2, r: 1, k: 1, leaf: true, natural: true, metrics_canon: true, max_depth: 9, ..BASE },
